@@ -30,7 +30,7 @@ ASSUMPTIONS = [
     'probe bodies accept any values, so -32602 can only come from binding',
     'only the pydantic extractor is judged (the default extractor documents nothing, the docstring extractor documents the docstring)',
 ]
-SHARDS = {'quick': 8, 'thorough': 16}
+SHARDS = {'quick': 16, 'thorough': 16}
 TIMEOUT = {'quick': 900, 'thorough': 3400}
 ANCHORS = [
     ('pjrpc/server/specs/extractors/pydantic.py', 'PydanticSchemaExtractor._build_params_model'),
@@ -39,7 +39,7 @@ ANCHORS = [
     ('pjrpc/server/validators/base.py', 'BaseValidator.signature'), ('pjrpc/server/dispatcher.py', 'Method.bind'),
     ('pjrpc/server/dispatcher.py', 'ViewMethod.bind'),
 ]
-FLOORS = {'*': {**{f'{k}:{w}': 10 for k in ('openapi', 'openrpc') for w in ('context', 'exclusion', 'keyword-only', 'view')},
+FLOORS = {'*': {**{f'{k}:{w}': 10 for k in ('openapi', 'openapi30', 'openrpc') for w in ('context', 'exclusion', 'keyword-only', 'view')},
                 'context:not-first': 20, 'context:positional': 10, 'subsets-dispatched': 3000, 'accepted': 300, 'refused': 1000,
                 'methods': 100, 'twin-registration': 30, 'exclusion:by-name': 30, 'exclusion:default-none': 30, 'exclusion:by-annotation': 30,
                 'validator:base': 100, 'validator:pydantic': 30, 'validator:pydantic:extra-ignore': 30, 'validator:pydantic:extra-allow:as-is': 30,
@@ -174,9 +174,26 @@ def run_method(ctx, params, ctx_at, positional, skip, style, validator='base'):
         ctx.violation(f'registration-raises:{type(e).__name__}', 'build', (src, style), source=src, exception=e)
         return
     ctx.hit('methods')
+    # a bystander whose name differs from the method's only in a separator, with a signature of its own: its documentation
+    # must not replace the method's (it is registered last)
+    try:
+        def ns_f(zzz: int, qqq: int = 0):
+            return 'bystander'
+        bystander = pjrpc.server.Method(ns_f, 'ns_f')
+        renamed = pjrpc.server.Method(ns['f'] if not as_view else None, 'ns.f', context=ctx_name if ctx_at is not None else None,
+                                      positional=positional) if not as_view else None
+        if renamed is not None:
+            disp.add_methods(renamed)
+        disp.add_methods(bystander)
+    except Exception as e:
+        ctx.violation(f'registration-raises:{type(e).__name__}', 'build', (src, style, 'bystander'), source=src, exception=e)
+        return
     base_names = [p[0] for p in params]
     base_required = [p[0] for p in params if not p[2]]
     targets = [('f', method, base_names, base_required)]
+    if renamed is not None:
+        targets.append(('ns.f', renamed, base_names, base_required))
+    extra_documented = [bystander]
     if ctx_at is not None and not as_view and not positional:
         # the same function object registered a second time WITHOUT a context designation: there `ctx` is an ordinary,
         # documented and required-or-not parameter like any other
@@ -192,7 +209,7 @@ def run_method(ctx, params, ctx_at, positional, skip, style, validator='base'):
         targets.append(('f2', m2, names2, req2))
         ctx.hit('twin-registration')
     universe = base_names + ['zz'] + ([ctx_name] if ctx_at is not None and not as_view else []) + (['skip'] if skip else [])
-    for kind in ('openapi', 'openrpc'):
+    for kind in ('openapi', 'openapi30', 'openrpc'):
         fam = f'{kind}:{style}'
         wit = dict(source=src, style=style, context_position=ctx_at, context_positional=positional, exclusion=skip or None,
                    document=kind, validator=vname, view_context_name=view_ctx if as_view else None)
@@ -215,12 +232,14 @@ def run_method(ctx, params, ctx_at, positional, skip, style, validator='base'):
             ex = x_pd.PydanticSchemaExtractor(exclude_param=pred)
             if kind == 'openapi':
                 spec = openapi.OpenAPI(info=openapi.Info(title='t', version='1'), schema_extractor=ex)
+            elif kind == 'openapi30':
+                spec = openapi.OpenAPI(info=openapi.Info(title='t', version='1'), schema_extractor=ex, openapi='3.0.3')
             else:
                 spec = openrpc.OpenRPC(info=openrpc.Info(title='t', version='1'), schema_extractor=ex)
-            doc = spec.schema(path='/api', methods_map={'': [t[1] for t in targets]})
+            doc = spec.schema(path='/api', methods_map={'': [t[1] for t in targets] + extra_documented})
             doc = json.loads(json.dumps(doc, cls=specs.JSONEncoder))
             for tname, _, _, _ in targets:
-                docs_[tname] = documented(kind, doc, f'/api#{tname}' if kind == 'openapi' else tname)
+                docs_[tname] = documented('openrpc' if kind == 'openrpc' else 'openapi', doc, f'/api#{tname}' if kind != 'openrpc' else tname)
         except Exception as e:
             ctx.violation(f'cannot-read-documented-parameters:{type(e).__name__}', fam, cls0, exception=e, **wit)
             continue
@@ -243,10 +262,14 @@ def run_method(ctx, params, ctx_at, positional, skip, style, validator='base'):
         if failed:
             continue
         # ---- the dispatcher as reference: all subsets, the registrations probed alternately
+        if kind == 'openapi30':
+            continue          # same request schema generator as 3.1: names and required lists were compared above
         bad = None
         for r in range(len(universe) + 1):
             for sub in itertools.combinations(universe, r):
                 for tname, _, _, _ in targets:
+                    if tname == 'ns.f':
+                        continue      # the same Method configuration as 'f' under another name: documented names compared above
                     names, required = docs_[tname]
                     ctx.hit('subsets-dispatched')
                     pobj = {n: 1 for n in sub}
@@ -291,7 +314,7 @@ def _ctx_required(fn, name):
     return inspect.signature(fn).parameters[name].default is inspect.Parameter.empty
 
 
-PARAM_NAMES = ['a', 'ref', 'c', 'type', 'e']      # incl. names that mean something inside a schema document
+PARAM_NAMES = ['a', 'ref', 'const', 'type', 'examples']      # incl. names that mean something inside a schema document
 
 
 def signatures(max_params):
